@@ -704,7 +704,7 @@ pub fn check(ctx: &mut Ctx) -> i32 {
     }
     ctx.max_shrink_iters = 40;
     let quick = ctx.quick();
-    let n = ctx.by(1, 4);
+    let n = ctx.by(1, 8);
     let strat = move || strategy(if quick { 2 } else { 7 });
     if let Some(f) = explore(ctx, &acc, "l3-fault-points", "c18", &strat, n, ctx.workers, run_case) {
         // narrow the replay to the failing point
